@@ -15,6 +15,8 @@
 #include <sys/socket.h>
 #include <sys/un.h>
 #include <unistd.h>
+#include <dlfcn.h>
+#include <sys/stat.h>
 
 #include <tbox/event/loop.h>
 #include <tbox/util/buffer.h>
@@ -22,6 +24,20 @@
 #include <tbox/http/server/request_parser.h>
 #include <tbox/http/server/server.h>
 #include <tbox/http/server/context.h>
+
+// write() interposer: while armed, every write() on a socket other than the client's fails with
+// EPIPE (a connection whose peer reset it). The client side of the harness uses send()/recv().
+static volatile bool g_wfail = false;
+static volatile int g_client_fd = -1;
+extern "C" ssize_t write(int fd, const void *buf, size_t n) {
+    typedef ssize_t (*write_t)(int, const void *, size_t);
+    static write_t real = (write_t)dlsym(RTLD_NEXT, "write");
+    if (g_wfail && fd != g_client_fd) {
+        struct stat st;
+        if (fstat(fd, &st) == 0 && S_ISSOCK(st.st_mode)) { errno = EPIPE; return -1; }
+    }
+    return real(fd, buf, n);
+}
 
 using namespace tbox;
 using namespace tbox::http;
@@ -38,10 +54,29 @@ static std::string showKVs(const std::map<std::string, std::string> &m) {
     return s;
 }
 
+// "khex:vhex,khex:vhex" or "-"
+static bool parseKVs(const std::string &w, std::map<std::string, std::string> &out) {
+    out.clear();
+    if (w == "-") return true;
+    size_t pos = 0;
+    while (pos <= w.size()) {
+        size_t e = w.find(',', pos);
+        std::string item = w.substr(pos, e == std::string::npos ? std::string::npos : e - pos);
+        size_t c = item.find(':');
+        if (c == std::string::npos || item.find(':', c + 1) != std::string::npos) return false;
+        std::vector<uint8_t> k, v;
+        if (!vh::unhex(item.substr(0, c), k) || !vh::unhex(item.substr(c + 1), v)) return false;
+        out[std::string(k.begin(), k.end())] = std::string(v.begin(), v.end());
+        if (e == std::string::npos) break;
+        pos = e + 1;
+    }
+    return true;
+}
+
 static std::string showReq(const Request &r) {
     return "m=" + MethodToString(r.method) + " path=" + vh::hex(r.url.path) + " params=" + showKVs(r.url.params) +
            " query=" + showKVs(r.url.query) + " frag=" + vh::hex(r.url.frag) + " ver=" + HttpVerToString(r.http_ver) +
-           " hdr=" + showKVs(r.headers) + " body=" + vh::hex(r.body);
+           " hdr=" + showKVs(r.headers) + " body=" + vh::hex(r.body) + " str=" + vh::hex(r.toString());
 }
 
 static const char *showState(RequestParser::State s) {
@@ -148,6 +183,7 @@ struct Srv {
         struct sockaddr_un a; memset(&a, 0, sizeof(a));
         a.sun_family = AF_UNIX; strncpy(a.sun_path, path.c_str(), sizeof(a.sun_path) - 1);
         if (::connect(cfd, (struct sockaddr *)&a, sizeof(a)) != 0) return false;
+        g_client_fd = cfd;
         pump();
         return true;
     }
@@ -199,6 +235,7 @@ struct Srv {
     }
 
     void stop() {
+        g_wfail = false;
         held.clear();   // contexts commit into a still-living server
         if (srv) { srv->cleanup(); delete srv; srv = nullptr; }
         if (cfd >= 0) { ::close(cfd); cfd = -1; }
@@ -218,7 +255,7 @@ int main() {
         if (w.empty()) continue;
         if (w[0] == "case") { reset(); std::cout << line << "\n"; continue; }
         const std::string &op = w[0];
-        std::vector<uint8_t> d; uint64_t n = 0, n2 = 0, n3 = 0;
+        std::vector<uint8_t> d; uint64_t n = 0, n2 = 0, n3 = 0; std::map<std::string, std::string> kvs;
         bool ok = true;
         try {
             if (op == "method" && w.size() == 2 && vh::unhex(w[1], d)) {
@@ -251,6 +288,43 @@ int main() {
                 it->second->res().body = std::string((size_t)n2, (char)n3);
                 sv->held.erase(it);
                 sv->settle();
+            } else if (op == "doneR" && w.size() == 5 && vh::to_u64(w[1], n) && vh::to_u64(w[2], n2) && n2 <= 999 &&
+                       parseKVs(w[3], kvs) && vh::unhex(w[4], d) && sv && sv->held.count((int)n)) {
+                auto it = sv->held.find((int)n);
+                it->second->res().status_code = (StatusCode)(int)n2;
+                it->second->res().headers = kvs;
+                it->second->res().body = std::string(d.begin(), d.end());
+                sv->held.erase(it);
+                sv->settle();
+            } else if (op == "rel" && w.size() == 2 && vh::to_u64(w[1], n) && sv && sv->held.count((int)n)) {
+                sv->held.erase((int)n);     // the handler lets go of the context without touching the response
+                sv->settle();
+            } else if ((op == "chalf" || op == "chalfS") && w.size() == 1 && sv && !sv->cclosed) {
+                ::shutdown(sv->cfd, SHUT_WR);   // the client has nothing more to say but keeps reading
+                sv->settle();
+            } else if (op == "wfail" && w.size() == 1 && sv) {
+                g_wfail = true;
+                std::cout << "P wfail\n";
+            } else if (op == "cdone" && w.size() == 3 && vh::to_u64(w[1], n) && vh::unhex(w[2], d) && sv && !sv->cclosed &&
+                       sv->held.count((int)n)) {
+                sv->cclosed = true;
+                if (sv->cfd >= 0) { ::close(sv->cfd); sv->cfd = -1; }   // the peer is gone before the handler completes
+                sv->eof = true;
+                auto it = sv->held.find((int)n);
+                it->second->res().status_code = StatusCode::k200_OK;
+                it->second->res().body = std::string(d.begin(), d.end());
+                sv->held.erase(it);     // write() -> EPIPE
+                sv->pump();
+                std::cout << "P closed\n";
+            } else if (op == "dcloseN" && w.size() == 4 && vh::to_u64(w[1], n) && vh::to_u64(w[2], n2) && vh::to_u64(w[3], n3) &&
+                       n2 <= 2000000 && n3 <= 255 && sv && !sv->cclosed && sv->held.count((int)n)) {
+                auto it = sv->held.find((int)n);
+                it->second->res().status_code = StatusCode::k200_OK;
+                it->second->res().body = std::string((size_t)n2, (char)n3);
+                sv->held.erase(it);     // partial write, the rest waits in the send buffer
+                sv->cclosed = true;
+                sv->clientClose();      // the peer goes away without reading
+                std::cout << "P closed\n";
             } else if (op == "cclose" && w.size() == 1 && sv && !sv->cclosed) {
                 sv->cclosed = true;
                 sv->clientClose();
